@@ -15,6 +15,7 @@ Container and float *types* are deliberately not distinguished; values, lengths,
 import hashlib
 import json
 import math
+import random as _random
 import struct
 from pathlib import PurePath
 
@@ -82,6 +83,11 @@ def canon(obj, numeric=False, _depth=0):
     if isinstance(obj, dict):
         items = sorted(obj.items(), key=lambda kv: repr(kv[0]))
         return {"d": [[canon(k, numeric, d), canon(v, numeric, d)] for k, v in items]}
+    if isinstance(obj, (numpy.random.Generator, numpy.random.RandomState)):
+        st = obj.bit_generator.state if isinstance(obj, numpy.random.Generator) else obj.get_state(legacy=False)
+        return {"o": type(obj).__name__, "v": {"state": {"s": hashlib.sha256(repr(st).encode()).hexdigest()[:24]}}}
+    if isinstance(obj, _random.Random):
+        return {"o": "random.Random", "v": {"state": {"s": hashlib.sha256(repr(obj.getstate()).encode()).hexdigest()[:24]}}}
     if isinstance(obj, type):
         out = {}
         for k in sorted(vars(obj)):
